@@ -231,7 +231,7 @@ def spans_boundary(prog, sched):
 
 def stage_stream(ctx):
     rng = ctx.rng
-    n = 6000 if ctx.tier == 'thorough' else 1400
+    n = 25000 if ctx.tier == 'thorough' else 2500
     cases = []
     metas = []
     seen_kinds = set()
@@ -342,7 +342,7 @@ def run_redirect(events):
 def stage_redirect_stub(ctx):
     rng = ctx.rng
     cases = []
-    n = 1500 if ctx.tier == 'thorough' else 300
+    n = 5000 if ctx.tier == 'thorough' else 400
     for i in range(n):
         evs = [('data', bytes(rng.choice(ALPHA) for _ in range(rng.randint(1, 6)))) for _ in range(rng.randint(0, 6))]
         if rng.random() < 0.7:
@@ -536,6 +536,7 @@ def model_comparable(prog, total, window):
 
 
 _SEQ = [0]
+HANGS = [0]
 
 
 def new_id(acts):
@@ -604,12 +605,16 @@ async def case_text(conn, chunks, sizes):
 
 
 async def case_exit(conn, acts, window, use_run):
+    """use_run: True = conn.run(); False = create_process + wait(); 'late' = wait() is called only after the
+    output had time to arrive and fill the window (reading paused, channel queueing, close pending)"""
     cid = new_id(acts)
     try:
-        if use_run:
+        if use_run is True:
             res = await asyncio.wait_for(conn.run(cid, encoding=None, window=window), 60)
         else:
             proc = await conn.create_process(cid, encoding=None, window=window)
+            if use_run == 'late':
+                await asyncio.sleep(0.03)
             res = await asyncio.wait_for(proc.wait(), 60)
         got = (res.exit_status, bytes(res.stdout), bytes(res.stderr))
     except asyncio.TimeoutError:
@@ -672,10 +677,14 @@ async def e2e_all(ctx):
     cases_read, cases_wait = [], []
     try:
         # ---- (a) client reads what the server wrote in generated chunks -------------------------
-        n = 700 if ctx.tier == 'thorough' else 160
+        n = 2500 if ctx.tier == 'thorough' else 250
         for i in range(n):
             window, data, acts, prog = gen_e2e_read_case(rng, big=(i % 3 == 0))
             results, hung = await case_read(conn, window, acts, prog)
+            if hung:        # wall-clock guard fired: report only if it reproduces
+                results, hung = await case_read(conn, window, acts, prog)
+                if not hung:
+                    ctx.count('e2e.nonreproducing_timeout', group='oracle')
             ctx.note_case(('e2e-read', window, data, repr(prog)), nontrivial=len(data) > 0)
             ctx.count('e2e_read.window_%s' % ('default' if window > 4096 else window))
             if len(data) > window:
@@ -686,6 +695,9 @@ async def e2e_all(ctx):
                                   {'kind': 'e2e_read', 'class': cls, 'window': window, 'data': list(data),
                                    'acts': js_acts(acts), 'prog': js_prog(prog)})
             if hung:
+                HANGS[0] += 1
+                if HANGS[0] >= 3:
+                    break
                 continue
             if model_comparable(prog, len(data), window):
                 ctx.count('e2e_read.compared_with_model')
@@ -745,6 +757,7 @@ async def e2e_all(ctx):
             ctx.note_case(('e2e-stdin', data, tuple(cut), repr(prog)), nontrivial=bool(cut))
             ctx.count('e2e_stdin.sessions')
             if res is None or len(res) < len(prog):
+                HANGS[0] += 1
                 ctx.failing_input(f'server-side read program {prog!r} did not finish after EOF',
                                   {'kind': 'e2e_stdin', 'class': 'hang', 'data': list(data), 'cut': cut, 'prog': js_prog(prog)})
                 continue
@@ -765,7 +778,7 @@ async def e2e_all(ctx):
                 ctx.count('e2e_stdin.judged')
 
         # ---- (d) exit status / signal with complete output -------------------------------------------
-        n = 400 if ctx.tier == 'thorough' else 100
+        n = 1200 if ctx.tier == 'thorough' else 120
         for i in range(n):
             window = rng.choice([256, 1024, 2 * 1024 * 1024])
             acts = []
@@ -788,8 +801,14 @@ async def e2e_all(ctx):
                 else:
                     acts.append(('drain',))
             acts.append(rng.choice([('exit', rng.choice([0, 2, 77])), ('exit', 0), ('close',)]))
-            use_run = rng.random() < 0.5
+            use_run = rng.choice([True, False, 'late'])
+            if use_run == 'late':
+                ctx.count('e2e_exit.wait_called_late')
             got = await case_exit(conn, acts, window, use_run)
+            if got is None:
+                got = await case_exit(conn, acts, window, use_run)
+                if got is not None:
+                    ctx.count('e2e.nonreproducing_timeout', group='oracle')
             wire = []
             for a in acts:
                 if a[0] == 'out':
@@ -819,6 +838,9 @@ async def e2e_all(ctx):
                 ctx.failing_input(why, {'kind': 'e2e_exit', 'class': cls, 'acts': js_acts(acts), 'window': window,
                                         'use_run': use_run})
             if got is None:
+                HANGS[0] += 1
+                if HANGS[0] >= 6:
+                    break
                 continue
             cases_wait.append('(%s, Some (%s, %s, %s))' % (clist(wire, str), copt(got[0], cz), zl(got[1]), zl(got[2])))
             if i < 1:
@@ -904,6 +926,32 @@ def _read_sock_all(sock):
     return b''.join(out)
 
 
+def spawn_thread(loop, fn, *args):
+    """run a blocking function in a daemon thread (a thread stuck on a descriptor that never sees EOF must
+    not keep the check from finishing); returns an asyncio future"""
+    import threading
+    fut = loop.create_future()
+
+    def done(r, e):
+        if not fut.done():
+            if e is None:
+                fut.set_result(r)
+            else:
+                fut.set_exception(e)
+
+    def run():
+        try:
+            r, e = fn(*args), None
+        except Exception as exc:        # noqa
+            r, e = None, exc
+        try:
+            loop.call_soon_threadsafe(done, r, e)
+        except RuntimeError:
+            pass
+    threading.Thread(target=run, daemon=True).start()
+    return fut
+
+
 REDIR_KINDS = ['path', 'purepath', 'fileobj', 'pipe', 'socket', 'bytesio', 'process', 'streamwriter', 'devnull',
                'stderr2stdout', 'stdin_path', 'stdin_bytesio', 'stdin_pipe', 'stdin_process', 'late_attach']
 
@@ -923,10 +971,14 @@ async def e2e_redirect(ctx, tmp):
             acts += [('out', c), ('drain',)]
         return acts + [('exit', 0)]
 
-    rounds = 6 if ctx.tier == 'thorough' else 2
+    rounds = 12 if ctx.tier == 'thorough' else 2
+    hangs = 0
     try:
         for rnd in range(rounds):
             for kind in REDIR_KINDS:
+                if hangs >= 3:
+                    ctx.count('redirect_e2e.skipped_after_3_hangs')
+                    continue
                 size = rng.choice([0, 5, 3000, 70000]) if rnd else [5, 3000, 70000, 0][REDIR_KINDS.index(kind) % 4]
                 if kind in ('stdin_pipe', 'pipe') and size == 0:
                     size = 7
@@ -961,7 +1013,7 @@ async def e2e_redirect(ctx, tmp):
                         got = f.getvalue()
                     elif kind == 'pipe':
                         r, w = os.pipe()
-                        fut = loop.run_in_executor(None, _read_fd_all, r)
+                        fut = spawn_thread(loop, _read_fd_all, r)
                         proc = await conn.create_process(new_id(out_script(data, piece)), encoding=None, stdout=w, window=window)
                         await asyncio.wait_for(proc.wait(), 60)
                         await asyncio.wait_for(proc.wait_closed(), 60)
@@ -972,7 +1024,7 @@ async def e2e_redirect(ctx, tmp):
                             got = b''
                     elif kind == 'socket':
                         a, b = socket.socketpair()
-                        fut = loop.run_in_executor(None, _read_sock_all, b)
+                        fut = spawn_thread(loop, _read_sock_all, b)
                         proc = await conn.create_process(new_id(out_script(data, piece)), encoding=None, stdout=a, window=window)
                         await asyncio.wait_for(proc.wait(), 60)
                         await asyncio.wait_for(proc.wait_closed(), 60)
@@ -1040,7 +1092,7 @@ async def e2e_redirect(ctx, tmp):
                             def feed(w=w, data=data):
                                 os.write(w, data) if data else None
                                 os.close(w)
-                            loop.run_in_executor(None, feed)
+                            spawn_thread(loop, feed)
                             src = r
                         else:
                             p0 = await conn.create_process(new_id(out_script(data, piece)), encoding=None)
@@ -1059,6 +1111,7 @@ async def e2e_redirect(ctx, tmp):
                         got = f.getvalue()
                 except asyncio.TimeoutError:
                     why = 'the redirected process did not finish'
+                    hangs += 1
                 ctx.note_case(('redir-e2e', kind, size, window, piece), nontrivial=size > 0)
                 ctx.count('redirect_e2e.' + kind)
                 if why is None and got != data:
@@ -1105,6 +1158,11 @@ def run(ctx):
         'the stub channel and the hand-stepped consumer coroutine stand for the channel and the event loop at the '
         'stream level; real channels and loops are exercised by the end-to-end stage only',
         'one data type per modelled session; cancellation of a pending read (wait_for timeout) is not modelled',
+        'end-to-end stages run over real loopback TCP: arrival timing is not controlled, so only results that the '
+        'theorems show to be timing-independent are compared with the model; a 60 s wall-clock guard detects hangs and '
+        'a hang is reported only when it reproduces on a second run',
+        'process level (wait/run, redirection, drain) is modelled abstractly (Model/Stream.v proc_step, redir_step, '
+        'drain_run); SSHChannel flow control itself is the subject of C07/C08',
     ]
     ctx.prove()
     stage_stream(ctx)
